@@ -1095,43 +1095,27 @@ api_harness!(c17_aligned_small_any_offset, 12, {
 /// ZIP64 locator / end-record handling is covered by c08_*.
 const TAILX: [u8; 4] = [0xfe, 0xca, 0, 0];
 
-/// C14/C12 raw copy between two normally written entries: the source entry (independent
-/// builder; method ANY 16-bit number incl. undecodable ones, declared CRC and uncompressed size
-/// arbitrary, 2 stored bytes, arbitrary time/attributes/made-by) is copied under a new name with
-/// raw_copy_file_rename: its compressed bytes, method, CRC, sizes and time arrive unchanged,
-/// permission bits equal the source's (default mode when the source has none), and the
-/// entries written before and after it hold exactly their own bytes with their own CRCs.
-// @h prop=C14,C12,C01 tier=dev t=2400 mem=10
+/// C14/C12 raw copy between two normally written entries, from the ZipFile that by_index_raw
+/// hands out (constructed: metadata with EVERY scalar symbolic - method ANY 16-bit number incl.
+/// undecodable ones, declared CRC, declared uncompressed size (< 4 GiB), time, host system,
+/// external attributes -, raw reader over 2 symbolic stored bytes): copied under a new name with
+/// raw_copy_file_rename its compressed bytes, method, CRC, sizes and time arrive unchanged,
+/// permission bits equal the source's (default mode when the source has none), and the entries
+/// written before and after it hold exactly their own bytes with their own CRCs.
+// @h prop=C14,C12,C01 tier=dev t=600 mem=12 uws="fn:^<read::ZipFileReader<'_> as std::io::Read>::read$:1;fn:^<read::CryptoReader<'_> as std::io::Read>::read$:1;fn:impl std::io::Read for std::io::Take<&mut dyn std::io::Read>>::read$:2;fn:impl std::io::Read for &mut dyn std::io::Read>::read$:3;fn:^std::ptr::drop_glue::<:2;fn:Drop>::drop$:2;fn:drop_box_raw:2;fn:^std::mem::drop::<:2"
 #[kani::proof]
 #[kani::unwind(10)]
 #[kani::stub(time::OffsetDateTime::now_utc, crate::verif_kit::stub_now_utc)]
 #[kani::stub(crc32fast::Hasher::internal_new_specialized, crate::verif_kit::stub_crc_specialized)]
 #[kani::stub(alloc::fmt::format, crate::verif_kit::stub_format)]
-#[kani::stub(std::hash::RandomState::new, crate::verif_kit::stub_random_state)]
-#[kani::stub(std::collections::HashMap::insert, crate::verif_kit::stub_hashmap_insert)]
+#[kani::stub(std::io::copy, crate::verif_kit::stub_io_copy)]
 fn c14_raw_copy_between_neighbours() {
-    const SN: usize = 128;
-    let mut sb = [0u8; SN];
-    let mut v = EntryVals::any();
-    v.flags &= 1 << 11;
-    let sname: [u8; 1] = kani::any();
     let payload: [u8; 2] = kani::any();
-    v.csize = 2;
-    v.offset = 0;
-    let p = put_local(&mut sb, 0, &v, v.crc, 2, v.usize_, &sname, &[]);
-    sb[p] = payload[0];
-    sb[p + 1] = payload[1];
-    let cd0 = p + 2;
-    let e0 = put_central(&mut sb, cd0, &v, &sname, &[], &[]);
-    let end0 = put_eocd(&mut sb, e0, 0, 0, 1, 1, (e0 - cd0) as u32, cd0 as u32, &[]);
-    let mut ar = match ZipArchive::new(Src::<SN>::new(sb, end0)) {
-        Ok(a) => a,
-        Err(e) => {
-            core::mem::forget(e);
-            assert!(false, "source archive rejected");
-            return;
-        }
-    };
+    let mut srcdata = any_zfd(String::from("s"), Vec::new());
+    srcdata.encrypted = false;
+    srcdata.compressed_size = 2;
+    kani::assume(srcdata.uncompressed_size <= 0xFFFF_FFFF);
+    let mut src = Src::<2>::new(payload, 2);
     let mut sink = Sink::<224>::new();
     let mut w = ZipWriter::new(sink.handle());
     let (o1, date1, time1, perm1) = sym_opts();
@@ -1140,26 +1124,19 @@ fn c14_raw_copy_between_neighbours() {
     ok!(w.start_file("x", o1), "start_file x failed");
     ok!(w.write_all(&d[..1]), "write failed");
     {
-        let f = match ar.by_index_raw(0) {
-            Ok(f) => f,
-            Err(e) => {
-                core::mem::forget(e);
-                assert!(false, "raw access failed");
-                return;
-            }
-        };
+        let f = crate::read::verif_h::mk_raw_zipfile(&srcdata, &mut src);
         ok!(w.raw_copy_file_rename(f, "y"), "raw copy failed");
     }
     ok!(w.start_file("z", o3), "start_file z failed");
     ok!(w.write_all(&d[1..]), "write failed");
     ok!(w.finish(), "finish failed");
     core::mem::forget(w);
-    core::mem::forget(ar);
-    let src_mode = match v.made_by >> 8 {
-        3 if v.eattr != 0 => Some(v.eattr >> 16),
-        0 if v.eattr != 0 => {
-            let mut m = if v.eattr & 0x10 != 0 { 0o040000 | 0o775 } else { 0o100000 | 0o664 };
-            if v.eattr & 1 != 0 {
+    let eattr = srcdata.external_attributes;
+    let src_mode = match srcdata.system {
+        System::Unix if eattr != 0 => Some(eattr >> 16),
+        System::Dos if eattr != 0 => {
+            let mut m = if eattr & 0x10 != 0 { 0o040000 | 0o775 } else { 0o100000 | 0o664 };
+            if eattr & 1 != 0 {
                 m &= 0o555;
             }
             Some(m)
@@ -1170,14 +1147,17 @@ fn c14_raw_copy_between_neighbours() {
         Some(m) => m & 0o777,
         None => 0o100644,
     };
+    #[allow(deprecated)]
+    let smethod = srcdata.compression_method.to_u16();
     let exp = [
         Exp { name: b"x", content: &d[..1], local_extra: &[], central_extra: &[], large: false, date: date1, time: time1, mode: 0o100000 | perm1, encrypted: false, raw: None },
-        Exp { name: b"y", content: &payload, local_extra: &[], central_extra: &[], large: false, date: v.date, time: v.time, mode: want_mode, encrypted: false, raw: Some(RawExp { method: v.method, crc: v.crc, usize_: v.usize_ }) },
+        Exp { name: b"y", content: &payload, local_extra: &[], central_extra: &[], large: false, date: srcdata.last_modified_time.datepart(), time: srcdata.last_modified_time.timepart(), mode: want_mode, encrypted: false, raw: Some(RawExp { method: smethod, crc: srcdata.crc32, usize_: srcdata.uncompressed_size as u32 }) },
         Exp { name: b"z", content: &d[1..], local_extra: &[], central_extra: &[], large: false, date: date3, time: time3, mode: 0o100000 | perm3, encrypted: false, raw: None },
     ];
     judge_archive(&sink.buf, 0, sink.end, &exp, &[]);
-    kani::cover!(v.method == 8);
+    kani::cover!(smethod == 8);
     kani::cover!(src_mode.is_none());
+    core::mem::forget(srcdata);
 }
 
 /// C11 writer: the sink fails at ONE arbitrary I/O call (symbolic index, any of write / seek /
